@@ -415,7 +415,9 @@ pub fn run(report: &Report, thorough: bool) -> Evidence {
             o.psugg = bits & 2 != 0;
             o.ansi = bits & 4 != 0;
             o.smart = bits & 8 != 0;
-            cfgs.push((o, depth));
+            // (quick tier: one event less for the configurations without a candidate list)
+            let d = if o.psugg || thorough { depth } else { depth - 1 };
+            cfgs.push((o, d));
         }
         for english in [false, true] {
             let mut o = Opts::phonetic(&real_db(), "");
